@@ -191,6 +191,49 @@ let vars tk =
     Buffer.add_char b '\n';
     print_string (Buffer.contents b)) [DX; DY]
 
+(* exempt mode: the line of harness mode `exempt` [ku ids | ncalls (avoid nexg groups) x ncalls]: after every call the stored set and
+   shapePairIsExempt for every ordered pair of distinct ids of the universe, once for the exemption object driven directly
+   (D) and once for the layout object's options (L).  noclear = true: the model WITHOUT m_exempt_pairs.clear() (diagnosis only). *)
+let read_groups tk =
+  let nexg = next tk in
+  rep nexg (fun () -> let k = next tk in rep k (fun () -> nnat tk))
+let exempt noclear tk =
+  let ku = next tk in
+  let u = rep ku (fun () -> next tk) in
+  let un = List.map (fun i -> (i, nat_of_int i)) u in
+  let ncalls = next tk in
+  let d = Buffer.create 256 and l = Buffer.create 256 in
+  Buffer.add_string d "D"; Buffer.add_string l "L";
+  let dump b st =
+    Buffer.add_string b (Printf.sprintf " %d" (List.length st));
+    List.iter (fun (x, y) -> Buffer.add_string b (Printf.sprintf " %d %d" (int_of_nat x) (int_of_nat y))) st;
+    Buffer.add_string b " b";
+    List.iter (fun (i, a) -> List.iter (fun (j, c) ->
+      if i <> j then Buffer.add_char b (if shape_pair_is_exempt st a c then '1' else '0')) un) un in
+  let st = ref [] and o = ref opts0 in
+  for _ = 1 to ncalls do
+    let avoid = next tk <> 0 in
+    let groups = read_groups tk in
+    st := (if noclear then add_exempt_groups_noclear !st groups else add_exempt_groups !st groups);
+    o := (if noclear then set_avoid_noclear !o avoid groups else set_avoid !o avoid groups);
+    Buffer.add_string d " C"; dump d !st;
+    Buffer.add_string l (Printf.sprintf " C %d" (if !o.o_avoid then 1 else 0)); dump l !o.o_ex
+  done;
+  Buffer.add_char d '\n'; Buffer.add_char l '\n';
+  print_string (Buffer.contents d); print_string (Buffer.contents l)
+
+(* oblige mode: n | ncalls (avoid nexg groups)*  ->  "m (i j)*m": the node pairs that must not overlap after this sequence of
+   setAvoidNodeOverlaps calls (obliged_pairs (after_calls calls) n; C08_obliged_pairs_after_calls) *)
+let oblige tk =
+  let n = nnat tk in
+  let ncalls = next tk in
+  let calls = rep ncalls (fun () -> let avoid = next tk <> 0 in let groups = read_groups tk in (avoid, groups)) in
+  let prs = obliged_pairs (after_calls calls) n in
+  let b = Buffer.create 256 in
+  Buffer.add_string b (string_of_int (List.length prs));
+  List.iter (fun (i, j) -> Buffer.add_string b (Printf.sprintf " %d %d" (int_of_nat i) (int_of_nat j))) prs;
+  Buffer.add_char b '\n'; print_string (Buffer.contents b)
+
 let () =
   let mode = if Array.length Sys.argv > 1 then Sys.argv.(1) else "gen" in
   try
@@ -199,7 +242,8 @@ let () =
       if String.length line > 0 then begin
         let ws = List.filter (fun x -> x <> "" && x <> "|") (String.split_on_char ' ' (String.trim line)) in
         let tk = { t = Array.of_list (List.map int_of_string ws); p = 0 } in
-        if mode = "gen" then gen tk else if mode = "vars" then vars tk else check tk
+        if mode = "gen" then gen tk else if mode = "vars" then vars tk else if mode = "exempt" then exempt false tk
+        else if mode = "exempt-noclear" then exempt true tk else if mode = "oblige" then oblige tk else check tk
       end
     done
   with End_of_file -> ()
